@@ -108,6 +108,12 @@ func (u *SPDX23) Unserialize(r io.Reader, _ *native.UnserializeOptions, _ interf
 		if r == nil {
 			continue
 		}
+		// TODO(degradation): relationships to NOASSERTION / NONE have no
+		// element at their other end. They cannot be expressed as an edge
+		// (it would point to a node with an empty ID), so they are skipped.
+		if r.RefA.ElementRefID == "" || r.RefB.ElementRefID == "" {
+			continue
+		}
 		// The SPDX go library surfaces the JSON top-level elements as relationships:
 		if r.RefA.ElementRefID == "DOCUMENT" && strings.EqualFold(r.Relationship, "DESCRIBES") {
 			bom.NodeList.RootElements = append(bom.NodeList.RootElements, string(r.RefB.ElementRefID))
